@@ -144,6 +144,14 @@ CHECKS = {
              '(below/at/above Nyquist and the diagonal, log, ties on attained |k|^2) x mu / pi / pole / thread variants: counts exactly, means within stated bounds; a brute-force oracle over the full mesh decides violations; every case first runs in a bounds-checked sub-process. Detects the four repaired defects on 5f669f3.',
         note='Trusted: Lean kernel, harness and oracle, numba bounds checking; float rounding of mu^2 and edge squares and fastmath summation order (stated tolerances, tie nudging counted in the evidence); odd multipoles not modelled; prange as an arbitrary row-to-thread assignment.',
         design='§7 C08'),
+    'C13': dict(
+        technique='Lean 4 proofs over C on (ZMod n)^3 (Mathlib ZMod.stdAddChar: DFT shift theorem by re-indexing the finite sum, character orthogonality, fibrewise sums; window positivity) + stage-wise correspondence of the compiled Float model driver with normalize_field / _normalize / get_field_fft / get_W_compensated / get_raw_power and scipy rfftn on meshes <= 6^3 + metamorphic oracle on the real calc_power',
+        text='dft_shift, dft_const, fourierField_translate, power_ / cross_power_ / table_translation_invariant, power_perm_invariant, cross_eq_auto, nmode_particle_free, thread_independent, codedPhase_unit, codedW_pos and calc_power_symmetries hold for every mesh, '
+             'particle list, whole-cell shift, phase, real window, binning and thread assignment; the deposit hypotheses (additive, roll-equivariant) are discharged from the C06 theorems in Props/C13Link.lean (calc_power_symmetries_c06: TSC and CIC, offsets 0 and half a cell). '
+             'Tied to /repo on every run: normalisations exactly, rfftn vs a naive DFT (1e-12), get_field_fft for meshes 2..6 x TSC/CIC x interlaced x compensated x weights x threads (5e-5 of max|F|, observed 1e-6), get_W_compensated, get_raw_power; and the metamorphic relations on the real calc_power '
+             '(permutation, whole-cell translation with wrap on dyadic lattices, nthread in {1,2,5,16}, pos2 = pos, particle-independence of N_mode / k / mu columns and table shape) over nmesh 4..16 incl. odd x TSC/CIC x compensated x interlaced x binnings x poles x weights.',
+        note='PARTIAL: exact-arithmetic model over the complex numbers; IEEE rounding, numba fastmath and scipy rfftn are assumed and compared under stated bounds (5e-5 of the column scale for calc_power outputs, observed <= 1e-6). The binning is an abstract weighted mean (the interface C08 instantiates); thread independence of the deposit is C07.',
+        design='§7 C13'),
 }
 
 NOT_YET = {}
